@@ -450,6 +450,115 @@ def fam_empty(rng, idx):
             "net": dict(lists), "steps": [{"s": "new"}] + api_tail(rng, 0, can_edit=False)}
 
 
+MINIMAL = {"elements": ["e", "H", "C", "O"], "pseudo_elements": ["CR"]}
+UCL_LISTS = {"elements": list(UCL_ELEMENTS), "pseudo_elements": ["CR", "CRP", "PHOTON", "CRPHOT"]}
+
+
+def fam_random(rng, idx):
+    """Mix-and-match description: every dimension that touches process-global or shared state is
+    drawn independently (element-list style, text formats - possibly two in one network -, ice
+    block, grain model, grain species, cooling, required/allowed species, modifiers, shielding,
+    API or CLI entry with replacement table / binding energies).  Combinations naunet cannot
+    render alone are discarded by the reference run and counted as unusable."""
+    style = rng.choice(["mixed", "mixed", "upper", "ucl", "minimal"])
+    cfg = "upper" if style in ("upper", "ucl") else ("minimal" if style == "minimal" else "mixed")
+    lists = {"mixed": MIXED, "upper": UPPER, "ucl": UCL_LISTS, "minimal": MINIMAL}[style]
+    net = {"elements": list(lists["elements"]), "pseudo_elements": list(lists["pseudo_elements"])}
+    sp = W.CONFIGS[cfg]["spell"]
+    files, fsteps, names = {}, [], []
+    nreac = 0
+    nfiles = rng.choice([1, 1, 2])
+    fmts = [f for f in ["naunet", "kida", "umist", "krome"] if not (cfg == "minimal" and f == "umist")]
+    for k in range(nfiles):
+        fmt = rng.choice(fmts)
+        ars = pool_lines(rng, cfg, rng.randint(2, 7), fmt)
+        if not ars:
+            continue
+        for i, ar in enumerate(ars):
+            ar["alpha"] = round((k * 10 + i + 1) * 1.3e-10, 13)
+        fname = f"part{k}.{fmt}"
+        files[fname] = "".join(W.encode(cfg, ar, fmt, 100 * k + i) + "\n" for i, ar in enumerate(ars))
+        fsteps.append([fname, fmt])
+        nreac += len(ars)
+        for x in species_names(cfg, ars):
+            if x not in names:
+                names.append(x)
+    has_ice = cfg != "minimal" and rng.random() < 0.35
+    model = ""
+    if has_ice:
+        model = rng.choice(["hh93", "rr07x"])
+        ice = [(["CO"], ["#CO"], 200), (["#CO"], ["CO"], 201), (["H2O"], ["#H2O"], 200), (["#H2O"], ["H2O"], 201)]
+        rng.shuffle(ice)
+        ice = ice[: rng.randint(2, 4)]
+        if model == "hh93" and style == "mixed" and rng.random() < 0.5:
+            ice += [(["e-", "GRAIN0"], ["GRAIN-"], 221), (["C+", "GRAIN-"], ["C", "GRAIN0"], 220)]
+        lines = []
+        for i, (R, P, t) in enumerate(ice):
+            R = [sp.get({"e-": "E"}.get(x, x), x) if x in ("e-",) else x for x in R]
+            Rf = (R + [""] * 3)[:3]
+            Pf = (P + [""] * 5)[:5]
+            lines.append(",".join([str(500 + i)] + Rf + Pf + [repr(round((i + 3) * 1.1e-11, 13)), "0.0", "0.0", "10.0", "-1.0", str(t), "sim"]))
+            for x in R + P:
+                if x not in names:
+                    names.append(x)
+        files["ice.naunet"] = "\n".join(lines) + "\n"
+        fsteps.append(["ice.naunet", "naunet"])
+        nreac += len(ice)
+        net["grain_model"] = model
+    if style == "mixed" and rng.random() < 0.3:
+        block = [(["H", "e-"], ["H+", "e-", "e-"]), (["H+", "e-"], ["H"]), (["He", "e-"], ["He+", "e-", "e-"]), (["He+", "e-"], ["He"])]
+        block = block[: rng.choice([2, 4])]
+        lines = []
+        for i, (R, P) in enumerate(block):
+            lines.append(",".join([str(700 + i)] + (R + [""] * 3)[:3] + (P + [""] * 5)[:5] + [repr(round((i + 1) * 2.3e-11, 13)), "-0.5", "0.0", "10.0", "41000.0", "100", "sim"]))
+            for x in R + P:
+                if x not in names:
+                    names.append(x)
+        files["thermal.naunet"] = "\n".join(lines) + "\n"
+        fsteps.append(["thermal.naunet", "naunet"])
+        nreac += len(block)
+        net["cooling"] = [c for c, need in COOLING_NEEDS.items() if all(n in names for n in need) and rng.random() < 0.7]
+    if rng.random() < 0.25:
+        net["allowed_species"] = [x for x in names if rng.random() < 0.85] or list(names)
+    elif rng.random() < 0.4:
+        he = sp.get("He", "He")
+        cand = [x for x in (he, he + "+", "N", "D", "D+") if x not in names and not (cfg == "minimal")]
+        if len(cand) >= 2:
+            net["required_species"] = rng.sample(cand, 2)
+    if rng.random() < 0.25:
+        net["rate_modifier"] = {str(rng.randrange(0, 5)): "3.0e-10 * zeta"}
+    if rng.random() < 0.25 and len(names) >= 2 and not net.get("allowed_species"):
+        a, b = rng.sample(names, 2)
+        net["ode_modifier"] = {a: {"factors": ["-2.0e-17 * nH"], "reactants": [[b]]}}
+    if rng.random() < 0.2:
+        net["shielding"] = rng.choice([{"H2": "L96Table"}, {"CO": "V09Table"}, {"CO": "VB88Table"}, {"N2": "L13Table"}])
+    entry = "cli" if rng.random() < 0.3 else "api"
+    fam = f"rnd-{style}-{'ice' if has_ice else 'gas'}-{entry}"
+    if entry == "cli":
+        cli = {"files": [f for f, _ in fsteps], "formats": [m for _, m in fsteps]}
+        cli["solver"], cli["method"], cli["device"] = rng.choice(METHODS)
+        if style in ("upper", "ucl") and rng.random() < 0.6:
+            cli["replacement"] = rng.choice([dict(UCL_REPLACEMENT), {"HE": "He"}, {"E": "e", "HE": "He"}])
+        if has_ice and rng.random() < 0.6:
+            cli["binding_energy"] = {"#CO": float(rng.choice([855, 1300, 2222])), "#H2O": float(rng.choice([4800, 5600]))}
+            if rng.random() < 0.4:
+                cli["photon_yield"] = {"#CO": 0.05}
+        steps = [{"s": "cli_render", "pattern": rng.random() < 0.2}] + ([{"s": "cli_render"}] if rng.random() < 0.4 else [])
+        return {"id": f"{fam}-{idx}", "family": fam, "entry": "cli", "name": "simproj", "files": files, "net": net, "cli": cli, "steps": steps}
+    steps = []
+    if rng.random() < 0.5:
+        steps.append({"s": "new", "files": fsteps})
+    else:
+        steps.append({"s": "new"})
+        steps += [{"s": "add_file", "file": f, "fmt": m} for f, m in fsteps]
+    steps += api_tail(rng, nreac, can_edit=not (net.get("ode_modifier") or net.get("allowed_species") or net.get("cooling")),
+                      can_export=not net.get("rate_modifier"))
+    for st in steps:
+        if st["s"] == "touch" and names:
+            st["where"] = rng.choice(names)
+    return {"id": f"{fam}-{idx}", "family": fam, "entry": "api", "name": "simproj", "files": files, "net": net, "steps": steps}
+
+
 def build_library(seed, tier):
     """~50 descriptions (quick) drawn deterministically from the families."""
     rng = K.rng_for(seed, "C17", 0, "library")
@@ -476,6 +585,8 @@ def build_library(seed, tier):
     lib.append(fam_krome_primordial(rng, 0, "cli"))
     lib.append(fam_empty(rng, 0))
     lib.append(fam_empty(rng, 1))
+    for i in range(14 if tier == "quick" else 90):
+        lib.append(fam_random(rng, i))
     # twins for the "independent of how often it is rendered" clause: the same description with
     # every rendering except the last one left out must give the same last rendering.  Twins are
     # only rendered as references (solo); they do not take part in the interleaved runs.
